@@ -40,6 +40,11 @@ func verifSpec_statusNormalFn() { verif.HavocExcept("H.client.health.Monitor.") 
 //verif:fieldfn Monitor statusFailedFn
 func verifSpec_statusFailedFn() { verif.HavocExcept("H.client.health.Monitor.") }
 
+// cancel is the context.CancelFunc made in NewMonitor: library code (A-EXT).
+//
+//verif:fieldfn Monitor cancel
+func verifSpec_cancel() {}
+
 const (
 	evProbe    = "Monitor).doCheck"
 	evNormalFn = "fieldfn:H.client.health.Monitor.statusNormalFn"
